@@ -427,7 +427,7 @@ def shrink(cx, work, suite, seq, pred, budget=60):
     if 'ops' not in seq:
         return seq
     if seq.get('rkind') in ('cluster', 'disp'):
-        budget = min(budget, 10)          # every replay starts a three-node cluster
+        budget = min(budget, 8)          # every replay starts a three-node cluster
     ops = seq['ops']
     tries = 0
     i = 0
